@@ -78,6 +78,8 @@ package redisemu
 //@ modifies cell alloc
 //@ endcallback
 //@ modifies ghost.now cell alloc
+// an expire time is refused only when it is not positive or when its duration does not fit 64-bit nanoseconds (EX beyond 9223372036 s, PX beyond 9223372036854 ms)
+//@ ensures internal [C02,C07] rejects.only.bad: !valid ==> n <= 0 || ((name == "expiration.seconds" || name == "seconds") && n > 9223372036) || ((name == "expiration.milliseconds" || name == "milliseconds") && n > 9223372036854)
 //@ assertafter "expiration = now.Add(time.Second*" [C07] ex.deadline: 0 < unbox(arg, int64) && unbox(arg, int64) <= 4000000000 ==> expiration == now + 1000000000*unbox(arg, int64) - 1
 //@ assertafter "expiration = now.Add(time.Millisecond*" [C07] px.deadline: 0 < unbox(arg, int64) && unbox(arg, int64) <= 4000000000000 ==> expiration == now + 1000000*unbox(arg, int64) - 1
 //@ assertafter "expiration = time.Unix(arg.(int64), 0)" [C07] exat.deadline: 0 < unbox(arg, int64) && unbox(arg, int64) <= 4000000000 ==> expiration == 1000000000*unbox(arg, int64)
